@@ -54,7 +54,18 @@ func TestMain(m *testing.M) {
 		"tamper:rejected", "tamper:accepted-original", "op:repl", "op:del", "op:ins", "op:type", "op:remove",
 		"api:EncryptKey", "api:DecryptKey", "api:NewAccount", "api:ImportECDSA", "api:Import", "api:Export", "api:Update",
 		"api:Unlock", "api:SignHash", "api:SignHashWithPassphrase", "api:plain",
-		"ks:tamper-running", "ks:tamper-rescan", "ks:swap-attack", "ks:iv-tamper-caught-by-GetKey", "vector:published"}
+		"ks:tamper-running", "ks:tamper-rescan", "ks:swap-attack", "ks:iv-tamper-caught-by-GetKey", "vector:published",
+		// another passphrase offered to an account in each state of a running KeyStore (c20_state_test.go)
+		"ksstate:wrong@locked-fresh", "ksstate:wrong@unlocked-indefinitely", "ksstate:wrong@unlocked-timed",
+		"ksstate:wrong@locked-after-Lock", "ksstate:wrong@locked-after-expiry", "ksstate:wrong@after-update",
+		"ksstate:wrongpass-old-passphrase", "ksstate:wrongpass-other-account", "ksstate:deleted-account-refused"}
+	for _, st := range []string{"locked-fresh", "unlocked-indefinitely", "unlocked-timed", "locked-after-Lock"} {
+		for _, e := range ksEntries {
+			if e != "Import" { // Import needs a file exported earlier in the same script: counted, not demanded per state
+				must = append(must, "ksstate:"+e+"@"+st)
+			}
+		}
+	}
 	for _, f := range tamperFields {
 		must = append(must, "field:"+f)
 	}
@@ -67,6 +78,11 @@ func TestMain(m *testing.M) {
 			"Files: written by EncryptKey/ImportECDSA/NewAccount/Update/Export (scrypt N in {2,4,8,16}) and by an independent writer (scrypt, pbkdf2, v3, v1, 31/30-byte ciphertext, presale). " +
 			"Alterations: per member (ciphertext, mac, iv, salt, n, r, p, dklen, c, prf, kdf, cipher, version, address, id) one character replaced / deleted / inserted (30-character alphabet), JSON type changed, member removed; " +
 			"sampled per generated file and enumerated completely for fixed files; at KeyStore level additionally a swap of two accounts' files. " +
+			"KeyStore states (TestKeyStoreStates): a script over one KeyStore with 1-3 accounts (ImportECDSA, NewAccount, or a scrypt/pbkdf2 v3/v1 file already in the directory) of 6-24 (thorough 6-40) drawn steps: " +
+			"a call of one of the ten passphrase-taking entry points (Unlock, TimedUnlock, SignHashWithPassphrase, SignTxWithPassphrase, the same two through the account's Wallet, Export, Update, Delete, Import of a file exported earlier) with the right or with another passphrase, the account named by address+URL, address only or URL only; " +
+			"Lock; a 1 ms TimedUnlock that is left to expire; signing without passphrase; re-import of a deleted account; after every step that can change the state a sweep of all ten entry points with one other passphrase. " +
+			"Other passphrases: edit distance 1 from the current one, the account's earlier ones (after Update / re-import), those of the other accounts of the KeyStore and of exported files, the empty one. " +
+			"A model (current passphrase, locked / unlocked indefinitely / unlocked with a 6 h timeout / locked again by Lock or by expiry, listed or deleted) decides: the right passphrase of a listed account is accepted and acts with the account's key, any other is refused with an error and changes neither the key file nor the account list nor lets a locked account sign; one evaluation per refused call, distinct by (key, passphrase, state, entry point, offered passphrase). " +
 			"non-trivial = an altered file that still parses with every member present and of the documented type, or a wrong passphrase at edit distance 1, or a round trip of a key with a leading zero byte; distinct by hash of (kind, scalar, passphrase, action) — random salts and IVs are not part of the hash",
 		Assumptions: []string{
 			"x/crypto scrypt, pbkdf2, sha3 (legacy Keccak-256), crypto/aes and btcec curve arithmetic are correct; the reference reader/writer in ref.go is checked against the published Web3 Secret Storage vectors (TestPublishedVectors)",
@@ -74,6 +90,7 @@ func TestMain(m *testing.M) {
 			"alterations whose scrypt/pbkdf2 parameters would need > 64 MiB or more than 2^15 block mixes / HMAC rounds are skipped and counted (generator/kdf-too-expensive); the keystore itself imposes no bound",
 			"'another passphrase' means another HMAC-SHA256 key: scrypt and PBKDF2 use the passphrase only as an HMAC key, and RFC 2104 pads a short key with zero bytes (and hashes one longer than 64 bytes), so p and p+\"\\x00\" are the same secret for every implementation of the format; such pairs are left out and counted (generator/hmac-equivalent-passphrase)",
 			"IV alterations are in the tampering domain only for files that carry the address member (every file the keystore writes does): the v3 format does not authenticate the IV, so for a foreign address-less file no reader can tell",
+			"state machine: unlock timeouts are either 6 h and more (never expire within a run) or 1 ms followed by waiting until the account no longer signs (up to 30 s; if that is not seen the case locks the account itself and counts inconclusive/unlock-expiry-not-seen - never a verdict); a refused call that also locks an unlocked account is tolerated (the model follows); after an accepted Delete the harness locks the address itself, because the KeyStore keeps a deleted account's key unlocked and the statement does not speak about that; SignTx sender recovery uses aquachain's own types.Sender (transaction hashing is not C20's subject); wallets are asked by address (+URL) only, as keystoreWallet requires",
 			"KeyStore account lists are read once per KeyStore instance (the cache reloads at most every 2400 s and the fallback watcher is a no-op): 'running' cases overwrite the file of a cached account, 'rescan' cases open a new KeyStore on a directory holding the altered file",
 		},
 	})
@@ -408,14 +425,15 @@ func strictCheckID(file []byte, pass string, s subject, checkID bool) error {
 // ---------- the DecryptKey-level case ----------
 
 type replayCase struct {
-	Kind    string `json:"kind"`
-	Scalar  string `json:"scalar"`
-	PassHex string `json:"pass_hex"`
-	File    string `json:"file"`              // the file given to the keystore
-	OrigIV  string `json:"orig_iv,omitempty"` // IV of the unaltered file
-	Tamper  string `json:"tamper,omitempty"`
-	Wrong   bool   `json:"wrong_passphrase,omitempty"` // PassHex is NOT the passphrase of the file: must be rejected
-	Message string `json:"message,omitempty"`
+	Kind    string    `json:"kind"`
+	Scalar  string    `json:"scalar"`
+	PassHex string    `json:"pass_hex"`
+	File    string    `json:"file"`              // the file given to the keystore
+	OrigIV  string    `json:"orig_iv,omitempty"` // IV of the unaltered file
+	Tamper  string    `json:"tamper,omitempty"`
+	Wrong   bool      `json:"wrong_passphrase,omitempty"` // PassHex is NOT the passphrase of the file: must be rejected
+	Message string    `json:"message,omitempty"`
+	Script  *ksScript `json:"script,omitempty"` // kind "ks-states": set-up and steps of a KeyStore state machine case
 }
 
 // checkAltered applies oracle (iii) to one altered file at DecryptKey level.
